@@ -21,13 +21,16 @@ def sh(cmd, cwd=None, env=None):
 
 def main(argv):
     wave = ""
+    srcroot, wtroot = "/tmp/seed", "/tmp/wt"
     if argv and argv[0] == "--wave2":
-        wave = "w2-"
+        wave, srcroot, wtroot = "w2-", "/tmp/seed2", "/tmp/wt2"
+        argv = argv[1:]
+    elif argv and argv[0] == "--wave3":
+        wave, srcroot, wtroot = "w3-", "/tmp/seed4", "/tmp/wt4"
         argv = argv[1:]
     pid = argv[0]
     ks = argv[1:] or (["1", "2", "3"] if wave else ["1", "2"])
-    src = f"/tmp/seed2/{pid}" if wave else f"/tmp/seed/{pid}"
-    wtroot = "/tmp/wt2" if wave else "/tmp/wt"
+    src = f"{srcroot}/{pid}"
     for k in ks:
         patch, demo = f"{src}/patch{k}.diff", f"{src}/demo{k}.py"
         if not (os.path.exists(patch) and os.path.exists(demo)):
